@@ -235,8 +235,13 @@ def check_roundtrip(ctx, text):
         ctx.fail("uniq:exception:%s" % type(e).__name__, dict(kind="roundtrip", text=text), repr(e))
         return
     # comments are dropped by replace_tags by design; compare modulo comments
-    want = re.sub(r"(\n[ ]*)?<!--.*?-->([ ]*\n)?", lambda m: "\n" if (m.group(1) and m.group(2)) else (m.group(1) or "") + (m.group(2) or ""), text, flags=re.S)
-    if back != want and "\x7f" not in text and "<nowiki" not in text.lower():
+    def strip_comments(t):
+        return re.sub(r"(\n[ ]*)?<!--.*?-->([ ]*\n)?", lambda m: "\n" if (m.group(1) and m.group(2)) else (m.group(1) or "") + (m.group(2) or ""), t, flags=re.S)
+
+    want = strip_comments(text)
+    # (a comment inside a protected region is part of its body and comes back verbatim while comments outside are dropped:
+    # the two sides are compared with every comment removed)
+    if back != want and strip_comments(back) != want and "\x7f" not in text and "<nowiki" not in text.lower():
         # (nowiki regions are restored as their inner text by design, so only nowiki-free texts are compared)
         ctx.fail("uniq:roundtrip-not-identity", dict(kind="roundtrip", text=text), "%r -> %r -> %r (expected %r)" % (text, protected, back, want))
 
